@@ -12,9 +12,24 @@ R = z3.RealSort()
 _ctr = [0]
 
 
+_det = [False]
+
+
 def fresh_name(base):
+    if _det[0]:
+        return '%s!init' % base      # deterministic name (initial value of a lazily created location)
     _ctr[0] += 1
     return '%s!%d' % (base, _ctr[0])
+
+
+class deterministic_names:
+    "within this context fresh symbols are named after their base only: every state sees the same initial symbol"
+    def __enter__(self):
+        self.prev = _det[0]
+        _det[0] = True
+
+    def __exit__(self, *a):
+        _det[0] = self.prev
 
 
 def fresh_int(base='i'):
